@@ -21,7 +21,10 @@ ORD_OPS = ["<", "<=", ">", ">="]
 
 def gen_version(rnd: random.Random, *, suffix_p: float = 0.35, epoch_p: float = 0.12, maxlen: int = 4) -> str:
     n = rnd.choice([1, 2, 2, 2, 3, 3, 4][: 3 + maxlen]) if maxlen >= 4 else rnd.randint(1, maxlen)
-    s = ".".join(str(rnd.choice(SEGS)) for _ in range(n))
+    if maxlen >= 4 and rnd.random() < 0.04:
+        n = rnd.randint(5, 6)  # more than four release segments
+    segs = SEGS if rnd.random() < 0.9 else SEGS + [11, 19, 20, 99, 100, 2024]
+    s = ".".join(str(rnd.choice(segs)) for _ in range(n))
     if rnd.random() < epoch_p:
         s = f"{rnd.choice([1, 2])}!{s}"
     if rnd.random() < suffix_p:
